@@ -1,4 +1,15 @@
-/- dsmodel_countmin: model driver stub (filled in when the family is built). -/
-def main (_args : List String) : IO UInt32 := do
-  IO.eprintln "dsmodel_countmin: not built yet"
-  return 2
+/- dsmodel_countmin: `countmin` = histories (row locations supplied on the op lines), `loc` = row locations computed
+in Lean (minstd_rand0 + uniform_int_distribution + MurmurHash3) for the hash-scheme tie. -/
+import DSModel.CountMin.Driver
+import DSModel.DriverLoop
+import DSGen.CountMin
+open DS
+
+def cmParams : CountMin.CtorParams :=
+  CountMin.ctorParams DSGen.countmin_MIN_BUCKETS DSGen.countmin_MAX_CELLS DSGen.countmin_SIZE_ARITH_BITS
+
+def main (args : List String) : IO UInt32 := do
+  match args with
+  | ["countmin"] => runDriver ({} : CountMin.DSt) (CountMin.stepLine cmParams)
+  | ["loc"] => runDriver () (fun _ w => ((), CountMin.locStep w))
+  | _ => IO.eprintln "usage: dsmodel_countmin countmin|loc"; return 2
